@@ -12,6 +12,7 @@
 #include "log.h"
 #include "storage.h"
 #include "tree_instance.h"
+#include "verif_hooks.h"
 
 #include "glog/logging.h"
 
@@ -59,15 +60,18 @@ status storage::delete_storage(std::string_view storage_name) { // NOLINT
         delete_guard() {
             for (;;) {
                 bool expected{false};
+                YK_VP(YK_RMW, YK_C_TREE, &delete_lock_);
                 if (delete_lock_.compare_exchange_weak(expected, true,
                                                        std::memory_order_acq_rel,
                                                        std::memory_order_acquire)) {
                     break;
                 }
+                YK_WAIT(YK_W_SPIN, &delete_lock_);
                 _mm_pause();
             }
         }
         ~delete_guard() {
+            YK_VP(YK_STORE, YK_C_TREE, &delete_lock_);
             delete_lock_.store(false, std::memory_order_release);
         }
         delete_guard(const delete_guard&) = delete;
